@@ -184,7 +184,57 @@ func c13History(ins []c13In) []inObs {
 
 // ---------------------------------------------------------------------------------- dumps
 
-var reArity = regexp.MustCompile(`wrong number of macro arguments, want=\d+, got=\d+`)
+// reArity matches the text of the error node that the code puts in place of a macro call with the wrong number of
+// arguments. The wording is not part of the property: it is learnt from the tree under test (a probe call of a macro named
+// qqzq with 1 parameter and 3 arguments), with the name and the numbers generalised.
+var reArity = c13LearnArity()
+
+func c13LearnArity() *regexp.Regexp {
+	fallback := regexp.MustCompile(`wrong number of macro arguments, want=\d+, got=\d+`)
+	defer func() { _ = recover() }()
+	s := eval.NewState()
+	prog, errs := parseFile("qqzq = macro(a) {quote(1)}; qqzq(7, 8, 9)")
+	if len(errs) > 0 {
+		return fallback
+	}
+	s.DefineMacros(prog)
+	exp := s.ExpandMacros(prog)
+	txt := ""
+	var walk func(v any)
+	walk = func(v any) {
+		switch x := v.(type) {
+		case J:
+			if x["k"] == "bi" && x["n"] == "error" {
+				if a, ok := x["a"].([]any); ok && len(a) == 1 {
+					if st, ok := a[0].(J); ok && st["k"] == "str" {
+						txt, _ = st["v"].(string)
+					}
+				}
+			}
+			for _, c := range x {
+				walk(c)
+			}
+		case []any:
+			for _, c := range x {
+				walk(c)
+			}
+		}
+	}
+	if st, ok := exp.(*ast.Statements); ok {
+		walk(any(dumpStmts(st)))
+	}
+	if txt == "" {
+		return fallback
+	}
+	q := regexp.QuoteMeta(txt)
+	q = strings.ReplaceAll(q, "qqzq", `\w+`)
+	q = regexp.MustCompile(`\d+`).ReplaceAllString(q, `\d+`)
+	re, err := regexp.Compile(q)
+	if err != nil {
+		return fallback
+	}
+	return re
+}
 
 // c13Norm removes the derived `ck` of function literals and the wording of the arity error node.
 func c13Norm(v any) any {
@@ -326,7 +376,7 @@ type c13Real struct {
 
 type c13Failure struct{ Sig, What string }
 
-var reArityObs = regexp.MustCompile(`wrong number of macro arguments, want=\d+, got=\d+|ARITY`)
+var reArityObs = regexp.MustCompile(reArity.String() + `|ARITY`)
 
 func c13NormObs(o []inObs) []inObs {
 	r := make([]inObs, len(o))
